@@ -6,7 +6,7 @@
   verif.py replay <file> [--verbose]
   verif.py selfcheck                      determinism of the simulator itself
 """
-import sys, os, json, subprocess, hashlib, shutil, time, glob, signal, atexit, re, threading
+import tempfile, sys, os, json, subprocess, hashlib, shutil, time, glob, signal, atexit, re, threading
 from concurrent.futures import ThreadPoolExecutor
 
 ROOT = os.path.dirname(os.path.abspath(__file__))
@@ -64,6 +64,9 @@ def header_digest():
             # relative names: the same tree at another path (a scratch worktree) shares the cache
             h.update(os.path.relpath(f, REPO if f.startswith(REPO + os.sep) else QSIM).encode())
             h.update(open(f, "rb").read())
+    # the compile flags live in this file; another compiler produces other objects
+    h.update(open(os.path.abspath(__file__), "rb").read())
+    h.update(sh(["g++", "--version"]).stdout.encode())
     return h.hexdigest()[:16]
 
 
@@ -73,9 +76,12 @@ def build_harness(variant, log):
     key = header_digest()
     d = os.path.join(BUILD, "harness", variant + "-" + key)
     stamp = os.path.join(d, "STAMP.json")
-    if os.path.exists(stamp):
+    try:
         st = json.load(open(stamp))
+        os.utime(d)          # in use: the pruning below goes by age
         return [os.path.join(d, o) for o in st["objs"]], st["mask"], st["notes"]
+    except (OSError, ValueError):
+        pass                 # not there (or being removed by a concurrent check): build it
     # build into a private directory and publish it atomically: concurrent checks may share the cache
     final_d = d
     d = final_d + ".tmp%d" % os.getpid()
@@ -132,9 +138,14 @@ def build_harness(variant, log):
     except OSError:
         shutil.rmtree(d, ignore_errors=True)       # somebody else published the same cache meanwhile
     # keep the cache small: drop all but the four most recent caches of this variant (never one that may be in use)
-    caches = sorted([c for c in glob.glob(os.path.join(BUILD, "harness", variant + "-*")) if ".tmp" not in c], key=lambda p: os.path.getmtime(p), reverse=True)
+    def age(p):
+        try:
+            return time.time() - os.path.getmtime(p)
+        except OSError:
+            return 0.0       # removed by a concurrent check meanwhile
+    caches = sorted([c for c in glob.glob(os.path.join(BUILD, "harness", variant + "-*")) if ".tmp" not in c], key=age)
     for old in caches[4:]:
-        if time.time() - os.path.getmtime(old) > 3600:
+        if age(old) > 3600:
             shutil.rmtree(old, ignore_errors=True)
     return [os.path.join(final_d, o) for o in objs], mask, notes
 
@@ -169,8 +180,8 @@ def build_variant(variant, rundir, log):
 
 
 def new_rundir():
-    d = os.path.join(BUILD, "run-%d-%d" % (os.getpid(), int(time.time() * 1000) % 100000))
-    os.makedirs(d, exist_ok=True)
+    os.makedirs(BUILD, exist_ok=True)
+    d = tempfile.mkdtemp(prefix="run-%d-" % os.getpid(), dir=BUILD)
     _tmpdirs.append(d)
     return d
 
@@ -359,10 +370,20 @@ def cmd_check(argv):
         v = f.get("variant", variants[0][0])
         if v not in exes:
             continue
-        rc, out = qsim_lines([exes[v], "replay", path, "--scratch", scratch])
-        line = [l for l in out.splitlines() if l.startswith("REPLAY")]
-        kv = parse_kv(line[0]) if line else {}
-        failed = bool(line) and line[0].startswith("REPLAY violated")
+        def replay_committed():
+            rc, out = qsim_lines([exes[v], "replay", path, "--scratch", scratch])
+            line = [l for l in out.splitlines() if l.startswith("REPLAY")]
+            kv = parse_kv(line[0]) if line else {}
+            return rc, kv, bool(line) and line[0].startswith("REPLAY violated")
+        rc, kv, failed = replay_committed()
+        if failed:
+            # a verdict needs two executions that agree
+            rc2, kv2, failed2 = replay_committed()
+            if not failed2 or base_class(kv2.get("class", "")) + "|" + kv2.get("oracle", "") != base_class(kv.get("class", "")) + "|" + kv.get("oracle", ""):
+                harness_errors.append("committed replay %s failed once (%s) but not twice" % (f["replay"], kv.get("class", "?")))
+                failed = False
+        elif rc == 2:
+            harness_errors.append("committed replay %s could not be executed" % f["replay"])
         regress += 1
         if f["status"] == "known":
             if failed and base_class(kv.get("class", "")) + "|" + kv.get("oracle", "") == f["class_oracle"]:
@@ -397,15 +418,22 @@ def cmd_check(argv):
             os.makedirs(sc, exist_ok=True)
             a, b = base + i * per, base + (i + 1) * per
             r = subprocess.run(["valgrind", "-q", "--error-exitcode=77", vexe, "run", "--prop", prop, "--tier", tier, "--seed", str(seed), "--from", str(a), "--to", str(b),
-                                "--scratch", sc, "--recheck", "0", "--deadline", "240"], stdout=subprocess.PIPE, stderr=subprocess.PIPE, text=True, errors="replace")
+                                "--scratch", sc, "--recheck", "0", "--deadline", "240"], stdout=subprocess.PIPE, stderr=subprocess.PIPE, text=True, errors="replace",
+                               env=dict(os.environ, QSIM_WATCHDOG_SCALE="40"))      # CPU-time budgets are for native speed
             starts = [int(l.split()[1]) for l in r.stdout.splitlines() if l.startswith("START ")]
             done = [l for l in r.stdout.splitlines() if l.startswith("DONE")]
-            return dict(rc=r.returncode, last=starts[-1] if starts else a, runs=len(starts), done=bool(done), err=r.stderr[-1500:])
+            return dict(i=i, rc=r.returncode, last=starts[-1] if starts else a, runs=len(starts), done=bool(done), err=r.stderr[-1500:])
         with ThreadPoolExecutor(nproc) as ex:
             res = list(ex.map(vg, range(nproc)))
         valgrind_info = dict(runs=sum(r["runs"] for r in res), errors=sum(1 for r in res if r["rc"] == 77))
         for r in res:
             if r["rc"] == 77:
+                # a verdict needs two executions that agree (runs are deterministic: a real error comes back in the same run)
+                r2 = vg(r["i"])
+                if r2["rc"] != 77 or r2["last"] != r["last"]:
+                    notes.append("valgrind reported an error in chunk %d that did not come back when the chunk was executed again" % r["i"])
+                    valgrind_info["errors"] -= 1
+                    continue
                 path = os.path.join(replay_dir, "%s-%x-valgrind-%d.json" % (prop, seed, r["last"]))
                 rc, out = qsim_lines([vexe, "gen", "--prop", prop, "--tier", tier, "--seed", str(seed), "--index", str(r["last"])])
                 open(path, "w").write(out)
@@ -427,7 +455,7 @@ def cmd_check(argv):
                 cmd += ["--casek", str(d["casek"]), "--casem", str(d["casem"])]
             rc, out = qsim_lines(cmd)
             open(path, "w").write(out)
-            cand.append(dict(index=d["index"], file=path, cls="died", oracle="crash", sig="died:%s" % d["rc"], detail="worker died (rc %s)" % d["rc"], variant=d["variant"]))
+            cand.append(dict(index=d["index"], file=path, cls="died", oracle="crash", sig="died:%s" % d["rc"], detail="worker died (rc %s)" % d["rc"], variant=d["variant"], rc=d["rc"]))
         for n in pool.nondet:
             harness_errors.append("in-run determinism re-check failed: " + n)
     # group by coarse signature, keep the smallest-index representative of each
@@ -448,6 +476,11 @@ def cmd_check(argv):
             out_path = os.path.join(replay_dir, "%s-%x-%d.json" % (prop, seed, f["index"]))
             rc, out = qsim_lines([exes[f["variant"]], "shrink", f["file"], "--out", out_path, "--scratch", scratch, "--max", "300" if tier == "quick" else "600"])
             line = [l for l in out.splitlines() if l.startswith("SHR")]
+            if f.get("rc") in (79, -9) and line and line[0].startswith("SHRINK not-failing"):
+                # the worker was starved (wall-clock backstop) or killed from outside (our own kill timer, the OOM killer) and
+                # the run is fine when executed alone: the environment, not the library and not the harness
+                notes.append("run %d: worker ended with rc %s under load; the run completes when executed in isolation" % (f["index"], f["rc"]))
+                continue
             if rc != 0 or not line or not line[0].startswith("SHRUNK"):
                 harness_errors.append("could not reproduce run %d in isolation: %s" % (f["index"], (line[0] if line else out.strip()[:200])))
                 continue
@@ -665,4 +698,14 @@ def main(argv):
 
 
 if __name__ == "__main__":
-    sys.exit(main(sys.argv[1:]))
+    try:
+        rc = main(sys.argv[1:])
+    except SystemExit:
+        raise
+    except BaseException:
+        # a crash of the orchestrator is never a verdict about the library
+        import traceback
+        traceback.print_exc()
+        print("HARNESS-ERROR: the orchestrator failed (see the traceback above)")
+        rc = 2
+    sys.exit(rc)
